@@ -3,6 +3,7 @@
 from __future__ import annotations
 
 import copy
+import functools
 import inspect
 import itertools
 import operator
@@ -64,6 +65,14 @@ class RandomModuleMixin:
                 setattr(mod, param_name, value.expand(old_param.shape))
 
         return self
+
+
+def _named_param_closure(param: str, module: nn.Module) -> Tensor:
+    return getattr(module, param)
+
+
+def _named_param_setting_closure(param: str, module: "Module", val: Union[Tensor, float]) -> None:
+    module.initialize(**{param: val})
 
 
 class Module(nn.Module):
@@ -286,18 +295,13 @@ class Module(nn.Module):
                     + " Make sure the parameter is registered before registering a prior."
                 )
 
-            def closure_new(module: nn.Module) -> Tensor:
-                return getattr(module, param)
-
-            closure = closure_new
+            # (partials of module-level functions rather than local functions: a module holding the prior stays picklable)
+            closure = functools.partial(_named_param_closure, param)
 
             if setting_closure is not None:
                 raise RuntimeError("Must specify a closure instead of a parameter name when providing setting_closure")
 
-            def setting_closure_new(module: Module, val: Union[Tensor, float]) -> None:
-                module.initialize(**{param: val})
-
-            setting_closure = setting_closure_new
+            setting_closure = functools.partial(_named_param_setting_closure, param)
 
         else:
             closure = param_or_closure
